@@ -90,18 +90,6 @@
         kani::cover!(true, "reached");
         std::mem::forget(v);
     }
-//# ob name=roundtrip_i128 role=disabled fn=value::serialize::ValueSerializer+value::deserialize kind=complete tier=thorough stmt="every i128 round-trips (I128 repr, narrowed to I64 when it fits or kept wide: value preserved)"
-    #[kani::proof]
-    #[kani::unwind(3)]
-    fn roundtrip_i128() {
-        let x: i128 = kani::any();
-        let v = Value::from(Serde(x));
-        let back = <i128 as serde::Deserialize>::deserialize(v.clone());
-        match back { Ok(y) => { assert!(y == x); } Err(e) => { std::mem::forget(e); assert!(false); } }
-        kani::cover!(true, "reached");
-        std::mem::forget(v);
-    }
-
     // ---- composites, embedded values and tojson: induction over serde's trait-generic data model has no
     // function-level contract; BOUNDED native stand-in.
 //# ob name=serde_box_native role=native_bounded fn=value::serialize+value::deserialize+filters::tojson kind=bounded bound="a fixed family of 40 serde values (options, chars, strings with control characters / U+2028 / metacharacters, byte strings, nested sequences, tuples, maps with integer and string keys, structs, enums of every variant shape incl. newtype variants holding None / unit, flattened enums) plus embedded Values (safe string, undefined, none, dynamic object); tojson in compact and pretty (indent) modes over 30 values incl. non-finite floats and non-string keys" stmt="serialising a value into a template value and deserialising it back yields the original; embedded template values come back as the very same values; tojson output (compact and pretty) parses back to an equal JSON value and contains none of < > & '"
